@@ -24,6 +24,9 @@ def run(rep, idx, tier):
     shared_state(rep, idx, rule="C17.4", classes=["Builder"])
     from . import glue as _glue
     _glue.param_refusals(rep, "C17.4", idx, only=["Builder.__init__"])
+    # the layouts the builder promises rely on the memory map accepting every legal explicit placement
+    from .c02 import legal_placements
+    legal_placements(rep, idx, "C17.4")
     add(rep, idx)
     scopes(rep, idx)
     as_memory_map(rep, idx)
